@@ -11,8 +11,13 @@
    tuple/mpl list/int and enum ranges, user functions as tables, and records inputs, result, final
    state of mutated containers and the call log (code -> spec).
 3. spec/AlgorithmsJudge.tla (TLC, RecordLoop) judges every record.
-Sanitizer reports / crashes of the harness become rejected records (observed, not decided by the
-spec)."""
+Sanitizer reports / crashes / hangs (CPU-time watchdog per driven call) of the harness become rejected
+records naming the function (observed, not decided by the spec); the complete prefix of the part is still
+judged.  Every harness unit is compiled separately (c16_main.cpp links them through weak symbols): a unit
+that does not compile against the tree under test is a VIOLATION C16:<unit>:does-not-compile (functions
+named by the statement) or an OBSERVATION (extension units), the other units are still driven and judged.
+A record TLC cannot evaluate is isolated by bisection and rejected (spec-cannot-evaluate), integers
+outside [-2^30, 2^30] are rejected before they reach TLC (absurd-<field>)."""
 import json
 import os
 import re
@@ -22,9 +27,42 @@ import time
 import vlib
 
 LEVEL = "model_checking"
-PARTS = ["vector", "list", "deque", "assoc", "static", "ranges", "strings", "containers", "extension", "foldtables"]
-SOURCES = ["c16_algo.cpp", "c16_cont.cpp", "c16_src_vector.cpp", "c16_src_list.cpp", "c16_src_deque.cpp",
-           "c16_src_assoc.cpp", "c16_src_static.cpp", "c16_src_ranges.cpp", "c16_ext.cpp"]
+
+# Harness units.  Every unit is ONE translation unit, compiled separately; c16_main.cpp (no fcppt
+# header) refers to the entry points of the parts through weak symbols, so a unit that does not
+# compile against the tree under test is left out of the link and the others are still driven and
+# judged (docs/AUDIT_BRIEF.md part A.5, EXTENSION_BRIEF Clarification 2).
+#   (unit, source, section macros, harness parts, drives functions named by the statement?)
+UNITS = [
+    ("main", "c16_main.cpp", (), (), None),
+    ("strings", "c16_algo.cpp", (), ("counts", "strings"), True),
+    ("src_vector", "c16_src_vector.cpp", (), ("vector",), True),
+    ("src_list", "c16_src_list.cpp", (), ("list",), True),
+    ("src_deque", "c16_src_deque.cpp", (), ("deque",), True),
+    ("src_assoc", "c16_src_assoc.cpp", (), ("assoc",), True),
+    ("src_static", "c16_src_static.cpp", ("C16_STATIC_ARRAYS",), ("static",), True),
+    ("src_static2", "c16_src_static.cpp", ("C16_STATIC_TUPLES",), ("static2",), True),
+    ("src_static3", "c16_src_static.cpp", ("C16_STATIC_MPL",), ("static3",), True),
+    ("src_ranges", "c16_src_ranges.cpp", (), ("ranges",), True),
+    ("containers", "c16_cont.cpp", ("C16_SECTION_CONTAINERS",), ("containers",), True),
+    ("arrays", "c16_cont.cpp", ("C16_SECTION_ARRAYS",), ("arrays",), True),
+    ("tuples", "c16_cont.cpp", ("C16_SECTION_TUPLES",), ("tuples",), True),
+    ("foldtables", "c16_fold.cpp", (), ("foldtables",), True),
+    # observed-only kinds (outside the statement): a failure here is an OBSERVATION
+    ("extension", "c16_ext.cpp", (), ("extension",), False),
+    ("extension2", "c16_ext2.cpp", (), ("extension2",), False),
+]
+PARTS = [p for u in UNITS for p in u[3]]
+OBSERVED_PARTS = set(p for u in UNITS if u[4] is False for p in u[3])
+# compile-only probes: (evidence key, probe source, macro, unit that uses the macro, what, named by the statement?)
+PROBES = [
+    ("array_append_accepts_lvalues", "c16_probe_append.cpp", "C16_APPEND_LVALUE", "arrays",
+     "fcppt::array::append/join/push_back", "array_append"),
+    ("tuple_concat_accepts_lvalues", "c16_probe_concat.cpp", "C16_CONCAT_LVALUE", "tuples",
+     "fcppt::tuple::concat", "tuple_concat"),
+    ("tuple_apply_accepts_lvalues", "c16_probe_tuple_apply.cpp", "C16_TUPLE_APPLY_LVALUE", "extension",
+     "fcppt::tuple::apply", None),
+]
 GUARDS = [("split", "SplitJoinInverse"), ("bsearch", "BinarySearchLaws"), ("reverse", "ReverseAntiHom"),
           ("reverse2", "ReverseInvolution"), ("remove", "RemoveLaws"), ("unique", "UniqueLaws"),
           ("foldbreak", "FoldBreakPrefix"), ("findopt", "SearchLaws"), ("atopt", "AtOptionalLaws"),
@@ -32,32 +70,123 @@ GUARDS = [("split", "SplitJoinInverse"), ("bsearch", "BinarySearchLaws"), ("reve
           ("joinmap", "MapLawsAssoc"), ("equal", "ExtensionSeqLaws"), ("popfront", "ExtensionSeqLaws"),
           ("text", "ExtensionSeqLaws"), ("indexmap", "IndexMapLaws"), ("insertmap", "ExtensionMapLaws"),
           ("insertset", "ExtensionSetLaws")]
+# lvalue arguments of array::append/join/push_back and tuple::concat compile on the tree this check is
+# registered against (fixes 5854b4c / fe5ac16): "a public API that the statement names no longer compiles
+# with well-formed arguments of a kind the harness used to pass" is a VIOLATION (AUDIT_BRIEF A.5).
+LVALUE_PROBES_ARE_VERDICTS = True
 
 
 def compiles(probe):
-    """Compile-only probes.  fcppt::array::append/join/push_back with lvalue arrays
-    (array/append.hpp instantiates fcppt::array::size<Array1> with a reference type) and
-    fcppt::tuple::concat with lvalue tuples (enable_if on the deduced reference types) do not
-    compile on the unchanged tree: compile-time restrictions, no run-time behaviour to judge.
-    The lvalue calls are driven only if they compile."""
+    """Compile-only probes.  fcppt::array::append/join/push_back with lvalue arrays and
+    fcppt::tuple::concat / fcppt::tuple::apply with lvalue tuples: the lvalue calls are driven only
+    if they compile (the rvalue calls always are)."""
     cmd = vlib.base_flags("none") + ["-fsyntax-only", os.path.join(vlib.HARNESS, probe)]
     p = subprocess.run(cmd, stdout=subprocess.PIPE, stderr=subprocess.STDOUT, text=True, errors="replace")
-    return p.returncode == 0
+    return p.returncode == 0, p.stdout
+
+
+def genuine_compile_error(out):
+    """a diagnostic of the compiler about the code, as opposed to the compiler being killed / out of
+    memory / out of disk on the shared box (which is our infrastructure, never a verdict)"""
+    if re.search(r"Killed signal|internal compiler error|virtual memory exhausted|No space left|cannot allocate memory|std::bad_alloc", out):
+        return False
+    # vlib.compile_obj keeps only the tail of a long diagnostic: any compiler output counts
+    body = re.sub(r"^compile failed: [^\n]*\n?", "", out)
+    return re.search(r"error|note: |required from|In file included", body) is not None
+
+
+def compile_error_summary(out):
+    """first error of a failed compilation and the fcppt functions named around it"""
+    lines = out.splitlines()
+    first = next((i for i, l in enumerate(lines) if " error: " in l or "fatal error:" in l), None)
+    if first is None:
+        return out[-400:], []
+    ctxl = lines[max(0, first - 25):first + 3]
+    fns = []
+    for l in ctxl:
+        for m in re.finditer(r"fcppt(?:::|/)(algorithm|container|array|tuple|range|enum_?|mpl)(?:::|/)(?:detail(?:::|/))?(\w+)", l):
+            n = m.group(1).rstrip("_") + "::" + m.group(2)
+            if n not in fns:
+                fns.append(n)
+    return re.sub(r"\s+", " ", lines[first])[:400], fns[:8]
 
 
 def build(ctx):
-    defs = []
-    for key, probe, macro, what in (
-            ("array_append_accepts_lvalues", "c16_probe_append.cpp", "C16_APPEND_LVALUE", "fcppt::array::append/join/push_back"),
-            ("tuple_concat_accepts_lvalues", "c16_probe_concat.cpp", "C16_CONCAT_LVALUE", "fcppt::tuple::concat"),
-            ("tuple_apply_accepts_lvalues", "c16_probe_tuple_apply.cpp", "C16_TUPLE_APPLY_LVALUE", "fcppt::tuple::apply")):
-        ok = compiles(probe)
+    """Compile every unit on its own and link what compiled.  A unit that does not compile against the
+    tree under test is a verdict about the tree (VIOLATION C16:<unit>:does-not-compile if the unit drives
+    functions named by the statement, OBSERVATION otherwise), never an infrastructure failure - except
+    c16_main.cpp, which includes no fcppt header."""
+    t0 = time.time()
+    pres = vlib.parallel(lambda pr: compiles(pr[1]), PROBES, workers=len(PROBES))
+    unit_defs = {}
+    for (key, probe, macro, unit, what, named), (ok, out) in zip(PROBES, pres):
+        if not ok and not genuine_compile_error(out):
+            ok, out = compiles(probe)
+            if not ok and not genuine_compile_error(out):
+                raise vlib.Infra("probe %s: the compiler failed without a diagnostic:\n%s" % (probe, out[-2000:]))
         ctx.extra[key] = ok
         if ok:
-            defs.append(macro)
+            unit_defs.setdefault(unit, []).append(macro)
+            continue
+        vlib.log("INFO: %s does not compile with lvalue arguments (driven with rvalues only)" % what)
+        err, fns = compile_error_summary(out)
+        msg = "%s no longer compiles with lvalue arguments (probe harness/%s): %s" % (what, probe, err)
+        if named and LVALUE_PROBES_ARE_VERDICTS:
+            ctx.reject("C16:%s:does-not-compile" % named, msg, {"unit": unit, "probe": probe})
+        # fcppt::tuple::apply (outside the statement) has never accepted lvalue tuples on the registered tree:
+        # documented in docs/notes_C16.md, evidence flag tuple_apply_accepts_lvalues, no observation line
+    san, opt = "asan", "-O1"
+    tag = vlib.sha((vlib.REPO + san + opt + "c16-units").encode())[:10]
+    objdir = vlib.mkdir(os.path.join(vlib.BUILD, "obj", tag))
+
+    def comp(u):
+        unit, src, secs, parts, scope = u
+        defs = tuple(secs) + tuple(unit_defs.get(unit, ()))
+        obj = os.path.join(objdir, "h_c16_%s.o" % unit)
+        for attempt in (1, 2):
+            try:
+                o, rebuilt = vlib.compile_obj(os.path.join(vlib.HARNESS, src), obj, vlib.base_flags(san, opt, defs))
+                return unit, o, rebuilt, None
+            except vlib.Infra as e:
+                if genuine_compile_error(str(e)):
+                    return unit, None, 0, str(e)
+                if attempt == 2:
+                    raise
+                time.sleep(5)   # compiler killed on the shared box: once more
+    res = vlib.parallel(comp, UNITS, workers=vlib.NCPU)
+    objs, failed, rebuilt = [], {}, 0
+    for unit, o, r, err in res:
+        if err is None:
+            objs.append(o)
+            rebuilt += r
         else:
-            vlib.log("INFO: %s does not compile with lvalue arguments (driven with rvalues only)" % what)
-    return vlib.build_harness("c16_algo", SOURCES, libs=(), defs=tuple(defs))
+            failed[unit] = err
+    if "main" in failed:
+        raise vlib.Infra("c16_main.cpp (no fcppt header) does not compile:\n" + failed["main"][-3000:])
+    built = [u for u in UNITS if u[0] not in failed]
+    out = os.path.join(vlib.mkdir(os.path.join(vlib.BUILD, "bin", tag)),
+                       "c16_algo_" + vlib.sha(" ".join(sorted(u[0] for u in built)).encode())[:8])
+    if rebuilt or not os.path.exists(out) or any(os.path.getmtime(o) > os.path.getmtime(out) for o in objs):
+        tout = out + ".tmp%d" % os.getpid()
+        p = subprocess.run(["g++", "-pthread"] + vlib.SAN_FLAGS[san] + objs + ["-o", tout],
+                           stdout=subprocess.PIPE, stderr=subprocess.STDOUT, text=True, errors="replace")
+        if p.returncode != 0:
+            raise vlib.Infra("link failed: c16_algo\n%s" % p.stdout[-4000:])
+        os.replace(tout, out)
+    vlib.log("build c16_algo: %d units (%d rebuilt, %d do not compile) in %.1fs" % (len(UNITS), rebuilt, len(failed), time.time() - t0))
+    for unit, src, secs, parts, scope in UNITS:
+        if unit not in failed:
+            continue
+        err, fns = compile_error_summary(failed[unit])
+        msg = "harness unit %s (harness/%s%s; parts %s) does not compile against this tree: %s%s" % (
+            unit, src, " -D" + ",".join(secs) if secs else "", ",".join(parts), err,
+            "; fcppt functions named in the error context: " + ", ".join(fns) if fns else "")
+        if scope:
+            ctx.reject("C16:%s:does-not-compile" % unit, msg, {"unit": unit})
+        else:
+            observe(ctx, "C16:observed:%s:does-not-compile" % unit, msg)
+    ctx.extra["units_not_compiling"] = sorted(failed)
+    return out, [p for u in built for p in u[3]]
 
 
 def model_checks(ctx):
@@ -97,6 +226,13 @@ def in_scope_kinds():
         raise vlib.Infra("cannot find InScope in the judge module")
     body = re.sub(r"\\\*[^\n]*", "", m.group(1))
     return set(re.findall(r'"([^"]+)"', body))
+
+
+def all_kinds():
+    """every record kind the judge knows (in scope or observed only)"""
+    txt = open(os.path.join(vlib.SPEC, "AlgorithmsJudge.tla")).read()
+    m = re.search(r"^AlgReasons\(r\) ==(.*?)\[\] OTHER", txt, re.S | re.M)
+    return set(re.findall(r'"(\w+)"', m.group(1))) if m else set()
 
 
 def observe(ctx, sig, what):
@@ -165,28 +301,129 @@ def judge_guard(ctx, module, cfg, chosen):
     os.unlink(path)
 
 
+ABSURD = re.compile(r"-?\d{10,}")
+LIMIT = 1 << 30
+JUDGE = ("AlgorithmsJudge", "AlgorithmsJudge.cfg")
+CHUNK = 30000
+
+
+def absurd_fields(e):
+    """fields of a record that contain an integer outside [-2^30, 2^30] (TLC integers are 32-bit; the
+    harness clamps what it logs, this is the second line of defence)"""
+    def big(x):
+        if isinstance(x, bool):
+            return False
+        if isinstance(x, int):
+            return abs(x) > LIMIT
+        if isinstance(x, list):
+            return any(big(y) for y in x)
+        if isinstance(x, dict):
+            return any(big(y) for y in x.values())
+        return False
+    return sorted(k for k, v in e.items() if big(v))
+
+
+def kind_of(line):
+    m = re.match(r'\{"f":"(\w+)"', line)
+    return m.group(1) if m else "?"
+
+
+def judge_chunk(ctx, lines, name):
+    """Judge one chunk of records with TLC.  Returns rejected records {l (1-based, in `lines`), op, why}.
+    If TLC cannot evaluate the chunk (an evaluation error caused by a record the specification has no
+    value for), the offending record is isolated by bisection on prefixes and reported as
+    spec-cannot-evaluate; the other records of that kind in the chunk are not judged, the rest is."""
+    def attempt(ls, suffix):
+        path = os.path.join(ctx.workdir, "%s_%s.ndjson" % (name, suffix))
+        with open(path, "w") as f:
+            f.write("\n".join(ls) + "\n")
+        try:
+            return vlib.judge_trace(ctx, JUDGE[0], JUDGE[1], path, boundary_key=None, nchunks=1, timeout=1800)
+        finally:
+            try:
+                os.unlink(path)
+            except OSError:
+                pass
+    first_error = ""
+    for again in (0, 1):     # a transient failure of the JVM on the shared box is not a verdict: once more
+        try:
+            return attempt(lines, "all")
+        except vlib.Infra as e:
+            first_error = str(e)
+    if re.search(r"OutOfMemoryError|TLC timeout|insufficient memory|Cannot allocate|Could not reserve|hs_err_pid", first_error):
+        raise vlib.Infra("trace judge ran out of resources on chunk %s:\n%s" % (name, first_error[-3000:]))
+    vlib.log("judge: TLC could not evaluate chunk %s (%d records); isolating the record" % (name, len(lines)))
+    idx = list(range(len(lines)))       # positions (0-based) still to be judged
+    synthetic = []
+    for rnd in range(4):
+        cur = [lines[i] for i in idx]
+        lo, hi = 0, len(cur)            # invariant: prefix of length lo judges fine, of length hi fails
+        good_bad = []
+        while hi - lo > 1:
+            mid = (lo + hi) // 2
+            try:
+                good_bad = attempt(cur[:mid], "bisect")
+                lo = mid
+            except vlib.Infra:
+                hi = mid
+        k = idx[hi - 1]
+        if hi == 1 and rnd == 0:
+            # not even the first record alone: make sure TLC judges *something* before blaming the record
+            try:
+                attempt(['{"f":"repeat","count":"int","n":0,"calls":0}'], "probe")
+            except vlib.Infra:
+                raise vlib.Infra("trace judge does not work at all:\n" + first_error[-3000:])
+        f = kind_of(lines[k])
+        synthetic.append({"l": k + 1, "op": f, "why": ["spec-cannot-evaluate"]})
+        idx = [i for i in idx if kind_of(lines[i]) != f]
+        if not idx:
+            return synthetic
+        try:
+            rest = attempt([lines[i] for i in idx], "rest")
+            return sorted(synthetic + [dict(b, l=idx[b["l"] - 1] + 1) for b in rest], key=lambda b: b["l"])
+        except vlib.Infra:
+            continue
+    raise vlib.Infra("trace judge failed on chunk %s even without the kinds %s:\n%s" % (
+        name, ",".join(b["op"] for b in synthetic), first_error[-3000:]))
+
+
 def judge_parts(ctx, results):
     """results: (part, path, rc, output) per harness process.  All complete records are judged in one
-    chunked TLC pass; a rejected line is mapped back to its part."""
+    chunked TLC pass; a rejected line is mapped back to its part.  Everything the code under test can
+    cause (crash, hang, sanitizer report, truncated line, absurd integers, a record TLC cannot evaluate)
+    ends in ctx.reject (in scope) or observe (outside the statement), never in an exception."""
+    scope = in_scope_kinds()
     all_lines = []
     spans = []  # (first index, part)
     for part, path, rc, out in results:
-        lines, tail = vlib.check_trace_file(path)
+        try:
+            lines, tail = vlib.check_trace_file(path)
+        except OSError:
+            lines, tail = [], None
         if rc != 0:
             fn = "?"
             if tail:
                 mm = re.search(r'"f":"(\w+)"', tail)
                 fn = mm.group(1) if mm else "?"
+            if fn == "?":
+                # no truncated record (a leak report at exit, a crash in a destructor): the sanitizer's
+                # stack names the fcppt function
+                mm = re.search(r"fcppt::(?:algorithm|container|array|tuple)::(?:detail::)?(\w+)", out or "")
+                named = {"array": "array_", "tuple": "tuple_"}
+                if mm:
+                    ns = re.search(r"fcppt::(\w+)::", mm.group(0)).group(1)
+                    fn = named.get(ns, "") + mm.group(1)
             kind = {66: "sanitizer", 67: "crash", 68: "hang", 124: "timeout"}.get(rc, "exit%d" % rc)
-            san = re.search(r"(ERROR: \w+Sanitizer: [^\n]*|runtime error: [^\n]*)", out)
-            (ctx.reject if fn in in_scope_kinds() or fn == "?" else
-             (lambda sig, what, payload: observe(ctx, sig.replace("C16:", "C16:observed:", 1), what)))("C16:%s:%s" % (fn, kind),
-                       "%s during %s (part %s): %s; truncated record: %s" % (
-                           kind, fn, part, san.group(1) if san else out[-300:], (tail or "")[:300]),
-                       {"part": part, "partial_line": tail})
+            san = re.search(r"(ERROR: \w+Sanitizer: [^\n]*|runtime error: [^\n]*|what\(\): [^\n]*|Assertion [^\n]*)", out or "")
+            what = "%s during %s (part %s): %s; truncated record: %s" % (
+                kind, fn, part, san.group(1) if san else (out or "")[-300:], (tail or "")[:300])
+            if fn in scope or (fn not in all_kinds() and part not in OBSERVED_PARTS):
+                ctx.reject("C16:%s:%s" % (fn, kind), what, {"part": part, "partial_line": tail})
+            else:
+                observe(ctx, "C16:observed:%s:%s" % (fn, kind), what)
         elif not lines:
             raise vlib.Infra("harness part %s wrote no records" % part)
-        lines = [l for l in lines if not l.startswith('{"e":"crash"')]
+        lines = [l for l in lines if l.startswith('{"f":"')]   # drops the crash record
         spans.append((len(all_lines), part))
         all_lines += lines
         ctx.traces_validated += 1
@@ -196,14 +433,6 @@ def judge_parts(ctx, results):
             pass
     if not all_lines:
         return
-    path = os.path.join(ctx.workdir, "records_%s.ndjson" % ("replay" if ctx.is_replay else ctx.tier))
-    with open(path, "w") as f:
-        f.write("\n".join(all_lines) + "\n")
-    t0 = time.time()
-    bad = vlib.judge_trace(ctx, "AlgorithmsJudge", "AlgorithmsJudge.cfg", path, boundary_key=None,
-                           nchunks=max(1, len(all_lines) // 30000 + 1), timeout=1800)
-    vlib.log("judged %d records in %.1fs, %d rejected" % (len(all_lines), time.time() - t0, len(bad)))
-    ctx.evaluations += len(all_lines)
 
     def part_of(l):
         cur = spans[0][1]
@@ -211,13 +440,48 @@ def judge_parts(ctx, results):
             if first <= l - 1:
                 cur = part
         return cur
+    # integers TLC cannot represent never reach it: judged here (any such value is wrong)
+    bad = []
+    judged = []      # (global 1-based line number) of the records handed to TLC
+    for ln, l in enumerate(all_lines, 1):
+        if ABSURD.search(l):
+            e = json.loads(l)
+            flds = absurd_fields(e)
+            if flds:
+                bad.append({"l": ln, "op": e["f"], "why": ["absurd-" + k for k in flds]})
+                continue
+        judged.append(ln)
+    t0 = time.time()
+    tag = "replay" if ctx.is_replay else ctx.tier
+    chunks = [judged[i:i + CHUNK] for i in range(0, len(judged), CHUNK)]
+    # spread the records evenly (the last chunk is not a tiny one that wastes a JVM start)
+    if len(chunks) > 1:
+        per = (len(judged) + len(chunks) - 1) // len(chunks)
+        chunks = [judged[i:i + per] for i in range(0, len(judged), per)]
+
+    def one(ic):
+        i, lns = ic
+        return [dict(b, l=lns[b["l"] - 1]) for b in judge_chunk(ctx, [all_lines[n - 1] for n in lns], "records_%s_c%d" % (tag, i))]
+    for r in vlib.parallel(one, list(enumerate(chunks))):
+        bad += r
+    bad.sort(key=lambda b: b["l"])
+    vlib.log("judged %d records in %.1fs, %d rejected" % (len(all_lines), time.time() - t0, len(bad)))
+    ctx.evaluations += len(all_lines)
+    path = os.path.join(ctx.workdir, "records_%s.ndjson" % tag)
     for b in bad:
         line = all_lines[b["l"] - 1]
-        if "HARNESS-PRECONDITION" in b["why"] or "unknown-function" in b["why"]:
-            raise vlib.Infra("harness record outside the spec's preconditions at line %d of %s: %s" % (b["l"], path, line[:300]))
-        real = [w for w in b["why"] if not w.startswith("observed-")]
+        infra = [w for w in b["why"] if w in ("HARNESS-PRECONDITION", "unknown-function")]
+        if infra and (b["op"] in scope or "unknown-function" in infra):
+            # inputs of in-scope kinds are built by the harness from std containers: a failed precondition
+            # there is a harness bug.  (For observed-only kinds an input may come out of an fcppt object -
+            # enum names, the previous state of an index_map - and a corrupted object is an observation.)
+            with open(path, "w") as f:
+                f.write(line + "\n")
+            raise vlib.Infra("harness record outside the spec's preconditions (saved as %s): %s" % (path, line[:300]))
+        real = [w for w in b["why"] if not w.startswith("observed-") and w not in infra and b["op"] in scope]
         if not real:
-            observe(ctx, "C16:observed:%s:%s" % (b["op"], "+".join(sorted(w[9:] for w in b["why"]))),
+            why = sorted(set(w[9:] if w.startswith("observed-") else w for w in b["why"]))
+            observe(ctx, "C16:observed:%s:%s" % (b["op"], "+".join(why)),
                     "spec cannot explain %s (%s); record: %s" % (b["op"], ",".join(b["why"]), line[:500]))
             continue
         b = dict(b, why=real)
@@ -236,19 +500,25 @@ def judge_parts(ctx, results):
                 if c is not None:
                     chosen[(e["f"], fld)] = dict(e, **{fld: c})
     if not bad:  # only on a run without any disagreement (rejected records are listed up to a cap)
-        judge_guard(ctx, "AlgorithmsJudge", "AlgorithmsJudge.cfg", chosen)
+        judge_guard(ctx, JUDGE[0], JUDGE[1], chosen)
     ends = [f for f, _ in spans[1:]] + [len(all_lines)]
     for (first, part), end in zip(spans, ends):
         if end > first:
-            ctx.sample(json.loads(all_lines[first + (end - first) * 2 // 3]), cap=8)
-    if not ctx.violations:
-        os.unlink(path)
+            ctx.sample(json.loads(all_lines[first + (end - first) * 2 // 3]), cap=len(PARTS))
+    if ctx.violations:
+        with open(path, "w") as f:   # kept for inspection
+            f.write("\n".join(all_lines) + "\n")
 
 
 def record_and_judge(ctx, binary, parts):
     def rec(part):
         path = os.path.join(ctx.workdir, "rec_%s_%s.ndjson" % (part, "replay" if ctx.is_replay else ctx.tier))
-        rc, out = vlib.run_harness(binary, ["record", path, ctx.seed, ctx.tier, part], timeout=1500)
+        try:
+            os.unlink(path)
+        except OSError:
+            pass
+        rc, out = vlib.run_harness(binary, ["record", path, ctx.seed, ctx.tier, part],
+                                   timeout=900 if ctx.tier == "quick" else 2400)
         return part, path, rc, out
     t0 = time.time()
     results = vlib.parallel(rec, parts, workers=8)
@@ -258,8 +528,8 @@ def record_and_judge(ctx, binary, parts):
 
 def run(ctx):
     model_checks(ctx)
-    binary = build(ctx)
-    record_and_judge(ctx, binary, PARTS)
+    binary, parts = build(ctx)
+    record_and_judge(ctx, binary, parts)
     ctx.exhaustive = False
     ctx.rule = ("one record per call of a real fcppt function: every sequence over {0,1,2} of length <= 6 (list, deque: "
                 "length <= 5 in quick) with all 8 predicate tables; the 27 unary / 64 optional / 125 sequence-valued table "
@@ -267,6 +537,10 @@ def run(ctx):
                 "samples beyond, thorough enumerates them all; every string over {a,b,delimiter} <= 7, sorted inputs for binary_search/equal_range, all "
                 "std::map over keys/values {0,1,2}, all pairs of subsets of 0..3 (0..4 thorough), arrays/tuples of size 0..5; "
                 "fold / fold_break tables (3^9 / 6^9 of them) are seeded random in both tiers, hence exhaustive=false; "
+                "round 3: beyond the exhaustive bounds seeded inputs of length 7..33 (sequences, sorted forms, multisets), "
+                "strings of 8..40 characters, maps of 4..10 entries, arrays of 5..9 and tuples of 5..7 elements, joins of "
+                "4..6 containers / arrays / tuples, counts 8..65539, 64-bit indices, rvalue and mutable lvalue source ranges, "
+                "algorithm::map into array / tuple targets; "
                 "a class = (function, source, target or value category, input length, log stopped early?, result empty?)")
     ctx.assumptions += [
         "the element domain {0,1,2} (ints, enum, pairs) stands for all element types (parametricity)",
@@ -274,7 +548,8 @@ def run(ctx):
         "std::unique's predicate must be an equivalence relation: only the 5 equivalence relations on {0,1,2} are driven",
         "binary_search / equal_range are driven on sorted inputs only (precondition of std::equal_range)",
         "call order of std-delegated algorithms (remove_if, find_if_opt) is the in-order one of the obvious loop, which libstdc++ implements",
-        "fcppt::array::append/join/push_back and fcppt::tuple::concat are driven with the value categories that compile (see array_append_accepts_lvalues / tuple_concat_accepts_lvalues in the evidence)",
+        "fcppt::array::append/join/push_back and fcppt::tuple::concat are always driven with rvalues, with lvalues if the lvalue probes compile (array_append_accepts_lvalues / tuple_concat_accepts_lvalues in the evidence); a probe that does not compile is a VIOLATION (<fn>:does-not-compile), as is any harness unit of in-scope functions that does not compile against the tree",
+        "logged integers are clamped to [-2^30, 2^30] (TLC integers are 32-bit); indices >= 2^30 passed to at_optional are recorded as 2^30 (same prediction: out of range)",
     ]
 
 
@@ -283,6 +558,8 @@ def replay(ctx, payload):
     judge it again."""
     ctx.tier = payload.get("tier", ctx.tier)
     ctx.seed = payload.get("seed", ctx.seed)
-    binary = build(ctx)
-    record_and_judge(ctx, binary, [payload["payload"]["part"]])
+    binary, parts = build(ctx)      # a unit that does not compile is rejected again in here
+    part = payload["payload"].get("part")
+    if part in parts:
+        record_and_judge(ctx, binary, [part])
     ctx.rule = "replay of the harness part that produced the saved rejection"
